@@ -76,7 +76,7 @@ def explore_text(acc, visitor, text, depth, want_root):
                 except Exception as e:  # noqa
                     can = e
                 visitor.on_node(acc, ctx, cur, s, cname, rule, index, node, can)
-                if can is not True:
+                if isinstance(can, Exception) or not can:
                     continue
                 acc.count("transitions")
                 acc.count("applied:" + cname)
